@@ -76,7 +76,7 @@ def register(reg):
         "perfect": "implies(cigar_stat, total_perfect == PF[{n}])",
     }
     reg.add(Contract(
-        file=STAT, func="run_stat", variant="#loop", fragment=("for alignment_count, mapping in enumerate(gaf_file.read_file(), 1)", 1),
+        file=STAT, func="run_stat", variant="#loop", fragment=("alignment_count = 0", 2),
         params=dict(gaf_file=GAFObjP, cigar_stat=BOOL, total_aligned_bases=INT, total_mapq=INT, total_primary=INT, total_secondary=INT,
                     reads=DictT(STR, ReadT), **{c: INT for c in COUNTERS}),
         types=dict(STR=STR, Read=ReadT), ufuns={"cigar_runs": ([STR], LINE), "fdiv": ([REAL, REAL], REAL)}, modifies=["reads"],
@@ -90,7 +90,7 @@ def register(reg):
         loops={
             1: Loop(index="it1", fingerprint="for alignment_count, mapping in enumerate(", invariant=dict(
                 list(fmt(base_inv, "it1").items()) + list(fmt(READS_INV, "it1").items()) + list(CIG_INV_OUT.items())
-                + [("count-variable", "implies(it1 >= 1, alignment_count == it1)")])),
+                + [("count-variable", "alignment_count == it1")])),
             # the inner loop only touches the CIGAR counters: everything else persists as facts about unmodified variables
             2: Loop(index="it2", fingerprint="for cnt in range(0, len(all_cigars) - 1, 2)", invariant=dict(
                 list(CIG_INV_IN.items()) + [("pairs", "0 <= it2 <= npairs(it1 - 1)")]),
@@ -103,5 +103,29 @@ def register(reg):
             "after:reads[mapping.query_name].highest_seq_identity = seq_identity": "argsi[mapping.query_name] = it1 - 1",
         },
         ensures=dict(list(fmt(base_inv, "len(gaf_file.records)").items()) + list(fmt(READS_INV, "len(gaf_file.records)").items()) + list(CIG_POST.items())
-                     + [("total-is-the-number-of-records", "implies(len(gaf_file.records) >= 1, alignment_count == len(gaf_file.records))")]),
+                     + [("total-is-the-number-of-records", "alignment_count == len(gaf_file.records)")]),
+    ))
+
+
+def register_averages(reg):
+    # the tail of run_stat that turns the per-read maxima into the two averages: sums over the reads in iteration order (ghost prefix sums AI / AM over
+    # the ghost enumeration rk0 of the dict's keys), divided by the number of reads when there is one; no division when there is none
+    reg.add(Contract(
+        file=STAT, func="run_stat", variant="#averages", fragment=("avg_highest_seq_identity = 0.0", 4),
+        params=dict(reads=DictT(STR, ReadT)), ufuns={"fdiv": ([REAL, REAL], REAL)}, returns=NONE,
+        ghost=dict(rk0=ListT(STR), AI=MapT(INT, REAL), AM=MapT(INT, REAL)), locals=dict(avg_highest_seq_identity=REAL, avg_highest_map_ratio=REAL),
+        outputs=["avg_highest_seq_identity", "avg_highest_map_ratio"],
+        ghost_at={"before:for k, v in reads.items()": "rk0 = keys(reads)"},
+        assume_at={"before:for k, v in reads.items()": [
+            # DEFINITION of the ghost prefix sums over the enumeration of the reads
+            "AI[0] == 0.0 and AM[0] == 0.0",
+            "forall(lambda t: implies(0 <= t < len(rk0), AI[t + 1] == AI[t] + reads[rk0[t]].highest_seq_identity and AM[t + 1] == AM[t] + reads[rk0[t]].highest_map_ratio))"]},
+        loops={1: Loop(index="it1", fingerprint="for k, v in reads.items()", invariant={
+            "identity-sum": "avg_highest_seq_identity == AI[it1]", "ratio-sum": "avg_highest_map_ratio == AM[it1]"})},
+        ensures={
+            "averages-over-the-reads": "implies(len(rk0) > 0, avg_highest_seq_identity == fdiv(AI[len(rk0)], float(len(rk0))) and "
+                                       "avg_highest_map_ratio == fdiv(AM[len(rk0)], float(len(rk0))))",
+            "zero-without-reads": "implies(len(rk0) == 0, avg_highest_seq_identity == 0.0 and avg_highest_map_ratio == 0.0)",
+        },
+        notes="float addition / division read as real arithmetic (fdiv uninterpreted); the safety obligation of the division is that it is never by zero",
     ))
